@@ -1,5 +1,155 @@
-/- C13 — theorems under construction. -/
-import BEI.Model.App
+/-
+  C13 — Actions evaluate in binding order and see each other's state accordingly.
+-/
+import BEI.Props.C01
+import BEI.Model.Conditions
+import BEI.Model.Modifiers
 namespace BEI.Props.C13
-theorem placeholder_true : True := trivial
+open BEI
+
+/-- (1) binding an action again extends it in place: the evaluation order (the list of bound actions) and the
+    `ActionsData` keys do not change; a new action is appended at the end of both -/
+theorem bind_idempotent_position (ci : ContextInstance) (a : Nat) (d : Dim) (cons : Bool) (acc : Accum)
+    (f : ActionBind → ActionBind) (hf : ∀ b, (f b).action = b.action) :
+    (ci.actions.get? a ≠ none →
+        (ci.bind a d cons acc f).bindings.map (·.action) = ci.bindings.map (·.action)
+        ∧ (ci.bind a d cons acc f).actions = ci.actions)
+    ∧ (ci.actions.get? a = none →
+        (ci.bind a d cons acc f).bindings.map (·.action) = ci.bindings.map (·.action) ++ [a]
+        ∧ (ci.bind a d cons acc f).actions = ci.actions ++ [(a, ActionData.new d)]) := by
+  constructor
+  · intro h
+    unfold ContextInstance.bind
+    cases hg : ci.actions.get? a with
+    | none => exact absurd hg h
+    | some x =>
+      simp only [List.map_map, and_true]
+      apply List.map_congr_left
+      intro b _
+      simp only [Function.comp]
+      split <;> simp [hf]
+  · intro h
+    unfold ContextInstance.bind
+    simp [h, hf]
+
+/-- bindings and `ActionsData` stay in bijection under `bind` (so the `expect`s on lookups cannot fail, see C04.no_panic) -/
+theorem bind_keeps_bijection (ci : ContextInstance) (a : Nat) (d : Dim) (cons : Bool) (acc : Accum)
+    (f : ActionBind → ActionBind) (hf : ∀ b, (f b).action = b.action)
+    (hinv : ci.actions.map (·.1) = ci.bindings.map (·.action)) :
+    (ci.bind a d cons acc f).actions.map (·.1) = (ci.bind a d cons acc f).bindings.map (·.action) := by
+  obtain ⟨h1, h2⟩ := bind_idempotent_position ci a d cons acc f hf
+  by_cases hg : ci.actions.get? a = none
+  · obtain ⟨hb, ha⟩ := h2 hg
+    rw [hb, ha]; simp [hinv]
+  · obtain ⟨hb, ha⟩ := h1 hg
+    rw [hb, ha, hinv]
+
+/-- the action loop over a concatenation: the first part runs first, the second part sees what it leaves behind -/
+theorem loopActions_append (t : Tick) (es : List Nat) :
+    ∀ (pre post : List ActionBind) (r : Reader) (av : ActionsView),
+      ContextInstance.loopActions r av t es (pre ++ post) =
+        match ContextInstance.loopActions r av t es pre with
+        | none => none
+        | some (pre', r1, av1, dl1, lg1) =>
+          match ContextInstance.loopActions r1 av1 t es post with
+          | none => none
+          | some (post', r2, av2, dl2, lg2) => some (pre' ++ post', r2, av2, dl1 ++ dl2, lg1 ++ lg2) := by
+  intro pre
+  induction pre with
+  | nil =>
+    intro post r av
+    simp only [List.nil_append, ContextInstance.loopActions]
+    cases ContextInstance.loopActions r av t es post with
+    | none => rfl
+    | some x => obtain ⟨a, b, c, d, e⟩ := x; simp
+  | cons ab rest ih =>
+    intro post r av
+    simp only [List.cons_append, ContextInstance.loopActions]
+    cases ab.update r av t es with
+    | none => rfl
+    | some o =>
+      simp only
+      rw [ih]
+      cases ContextInstance.loopActions o.reader o.actions t es rest with
+      | none => rfl
+      | some x =>
+        obtain ⟨a, b, c, d, e⟩ := x
+        simp only
+        cases ContextInstance.loopActions b c t es post with
+        | none => rfl
+        | some y => obtain ⟨a', b', c', d', e'⟩ := y; simp [List.append_assoc]
+
+/-- (2) visibility: when the action at some position is evaluated, the `ActionsData` it is shown holds this frame's
+    data for the actions bound earlier and still the previous frame's data for itself and for the actions bound later -/
+theorem visibility (t : Tick) (es : List Nat) (pre : List ActionBind) (ab : ActionBind) (post : List ActionBind)
+    (r : Reader) (av : ActionsView) (hnd : ((pre ++ ab :: post).map (·.action)).Nodup)
+    pre' r1 av1 dl1 lg1 (hpre : ContextInstance.loopActions r av t es pre = some (pre', r1, av1, dl1, lg1)) :
+    -- `ab` is evaluated with `(r1, av1)`:
+    ContextInstance.loopActions r av t es (pre ++ ab :: post) =
+      (match ContextInstance.loopActions r1 av1 t es (ab :: post) with
+       | none => none
+       | some (post', r2, av2, dl2, lg2) => some (pre' ++ post', r2, av2, dl1 ++ dl2, lg1 ++ lg2))
+    -- earlier actions: already updated this frame
+    ∧ (∀ x ∈ pre, ∃ old st v, av.get? x.action = some old ∧ av1.get? x.action = some (old.update t st v))
+    -- itself and later actions: still the previous frame's data
+    ∧ (∀ x ∈ ab :: post, av1.get? x.action = av.get? x.action) := by
+  have hnd_pre : (pre.map (·.action)).Nodup := by
+    simp only [List.map_append, List.nodup_append] at hnd
+    exact hnd.1
+  obtain ⟨h1, h2⟩ := C01.loopActions_threads t es pre r av pre' r1 av1 dl1 lg1 hnd_pre hpre
+  refine ⟨?_, ?_, ?_⟩
+  · rw [loopActions_append, hpre]
+  · intro x hx
+    obtain ⟨old, st, v, ha, hb, _⟩ := h1 x hx
+    exact ⟨old, st, v, ha, hb⟩
+  · intro x hx
+    apply h2
+    simp only [List.map_append, List.map_cons, List.nodup_append] at hnd
+    intro hmem
+    exact hnd.2.2 x.action hmem x.action (by
+      simp only [List.mem_cons, List.mem_map] at hx ⊢
+      rcases hx with rfl | hx
+      · exact Or.inl rfl
+      · exact Or.inr ⟨x, hx, rfl⟩) rfl
+
+/-- (3) `Chord<A>` yields exactly the referenced action's state as it is shown; absent action chords nothing; implicit -/
+theorem chord_is_state (id a : Nat) (av : ActionsView) (t : Tick) (v : Value) :
+    ((Cond.chord id a).eval av t v).2.1 = (match av.get? a with | some d => d.state | none => .none)
+    ∧ ((Cond.chord id a).eval av t v).2.2 = .implicit := by
+  simp only [Cond.eval, Cond.chord, and_true]
+  cases av.get? a <;> rfl
+
+/-- (4) `BlockBy<A>` blocks (returns None) exactly while the referenced action is Fired — only the events when
+    events-only; absent action blocks nothing -/
+theorem blockBy_iff_fired (id a : Nat) (eo : Bool) (av : ActionsView) (t : Tick) (v : Value) :
+    (((Cond.blockBy id a eo).eval av t v).2.1 = .none ↔ ∃ d, av.get? a = some d ∧ d.state = .fired)
+    ∧ (((Cond.blockBy id a eo).eval av t v).2.1 ≠ .none → ((Cond.blockBy id a eo).eval av t v).2.1 = .fired)
+    ∧ ((Cond.blockBy id a eo).eval av t v).2.2 = (if eo then .eventsBlocker else .blocker) := by
+  simp only [Cond.eval, Cond.blockBy]
+  cases hg : av.get? a with
+  | none => simp
+  | some d => cases hs : d.state <;> simp [hs]
+
+/-- (5) `AccumulateBy<A>`: running sum exactly while the referenced action is Fired, the plain input otherwise;
+    absent action accumulates nothing -/
+theorem accumulateBy_spec (a : Nat) (acc : V3) (av : ActionsView) (v : Value) :
+    Mod.accumulateByStep a acc av v =
+      match av.get? a with
+      | none => (acc, v)
+      | some d => if d.state = .fired then (acc + v.as3, Value.ofV3 (acc + v.as3) v.dim)
+                  else (v.as3, Value.ofV3 v.as3 v.dim) := by
+  unfold Mod.accumulateByStep
+  cases hg : av.get? a with
+  | none => rfl
+  | some d => by_cases hs : d.state = .fired <;> simp [hs]
+
+/-- while not Fired the output is the plain input (converted back to its own dimension: identity) -/
+theorem accumulateBy_plain (v : Value) :
+    (Value.ofV3 v.as3 v.dim).as3 = v.as3 := by
+  cases v with
+  | bool b => cases b <;> simp [Value.ofV3, Value.convert, Value.as3, Value.dim, Value.asBool]
+  | a1 x => simp [Value.ofV3, Value.convert, Value.as3, Value.dim, Value.as1]
+  | a2 x y => simp [Value.ofV3, Value.convert, Value.as3, Value.dim, Value.as2]
+  | a3 x y z => simp [Value.ofV3, Value.convert, Value.as3, Value.dim]
+
 end BEI.Props.C13
